@@ -619,7 +619,7 @@ func (c *c26Case) dump() string {
 	c.rec.mu.Lock()
 	cb := append([]string{}, c.rec.seq...)
 	c.rec.mu.Unlock()
-	return "steps:\n  " + strings.Join(c.steps, "\n  ") + "\nfake datastore log:\n  " + strings.Join(sl, "\n  ") + "\ncallbacks:\n  " + strings.Join(cb, "\n  ")
+	return "steps:\n  " + strings.Join(c26Tail(c.steps), "\n  ") + "\nfake datastore log:\n  " + strings.Join(c26Tail(sl), "\n  ") + "\ncallbacks:\n  " + strings.Join(c26Tail(cb), "\n  ")
 }
 
 // waitStore blocks until cond (evaluated under the store lock) holds.
@@ -890,6 +890,14 @@ func TestVerifC26WatcherSyncer(t *testing.T) {
 			}
 			return n, plansEmpty
 		}
+		// Faults that were queued but never reached (e.g. a List fault while the watch stayed
+		// healthy) are not part of the executed sequence: drop them.
+		store.mu.Lock()
+		for _, k := range kinds {
+			store.types[k].listPlan = nil
+			store.types[k].watchPlan = nil
+		}
+		store.mu.Unlock()
 		clean := false
 		rounds := 0
 		for start := time.Now(); !clean; {
@@ -986,6 +994,15 @@ func TestVerifC26WatcherSyncer(t *testing.T) {
 			return map[string]any{"ops": key, "steps": c.steps, "lists": lists, "watches": watches}
 		}, classes...)
 	})
+}
+
+// c26Tail keeps failure dumps readable.
+func c26Tail(ss []string) []string {
+	const n = 150
+	if len(ss) <= n {
+		return ss
+	}
+	return append([]string{fmt.Sprintf("... (%d earlier lines omitted)", len(ss)-n)}, ss[len(ss)-n:]...)
 }
 
 func c26IndexOf(ss []string, s string) int {
